@@ -277,13 +277,3 @@ Eval vm_compute in
    e_amt SellAllCounterexample.e,
    sumZ (map (rem_after SellAllCounterexample.lots []) (seq 0 (length SellAllCounterexample.lots)))).
 
-Print Assumptions spec_total.
-Print Assumptions spec_positive.
-Print Assumptions spec_event_covered.
-Print Assumptions spec_only_events.
-Print Assumptions spec_earn_once.
-Print Assumptions spec_no_overspend.
-Print Assumptions spec_order.
-Print Assumptions spec_fails_iff.
-Print Assumptions spec_sell_all.
-Print Assumptions SellAllCounterexample.unguarded_sell_all_false.
